@@ -4,7 +4,8 @@
 // inside a synctest bubble. Enumerated: cluster size x replication factor x
 // owner-assignment offset x coordinating node x per-node fault (down, error
 // reply, dies after b bytes of its answer, never answers) x every owner pick
-// of the shard mapper (math/rand replaced by an explorer choice) x statement.
+// of the shard mapper (math/rand replaced by an explorer choice) x statement x
+// completion order of the mapper's concurrent per-node calls (bounded deviations).
 // Oracle: a query that returns no error returns exactly the rows of the same
 // statement on a single node holding all the data; if some shard has no
 // healthy owner the query must fail; if every shard has one it must succeed.
@@ -20,6 +21,7 @@ import (
 	"testing/synctest"
 	"time"
 
+	"github.com/influxdata/influxdb/pkg/vgroup"
 	"github.com/influxdata/influxdb/pkg/vrand"
 
 	ck "verif/harness/clusterkit"
@@ -35,7 +37,11 @@ var statements = []string{
 	"SELECT count(v), sum(v) FROM cpu GROUP BY host",
 	"SELECT mean(v) FROM cpu WHERE time >= '2000-01-01T00:00:00Z' AND time < '2000-01-01T04:00:00Z' GROUP BY time(1h)",
 	"SELECT v FROM cpu WHERE host = 'h1' ORDER BY time DESC LIMIT 2",
+	"SELECT count(v) FROM cpu, mem",
+	"SELECT sum(v) FROM (SELECT v FROM cpu), mem",
 }
+
+var layouts = []string{"as-created", "late-joined-empty-coordinator", "every-second-shard-copied-to-the-last-node"}
 
 type faultKind struct {
 	name string
@@ -47,11 +53,12 @@ var faults = []faultKind{
 	{"down", ck.Fault{Down: true}},
 	{"error-reply", ck.Fault{ErrorOnCreateIterator: true}},
 	{"never-answers", ck.Fault{Mute: true}},
-	{"dies-after-1B", ck.Fault{WriteBudget: 1}},
-	{"dies-after-12B", ck.Fault{WriteBudget: 12}},
 	{"dies-after-40B", ck.Fault{WriteBudget: 40}},
+	{"dies-after-1B", ck.Fault{WriteBudget: 1}},
 	{"dies-after-90B", ck.Fault{WriteBudget: 90}},
 }
+
+const quickFaults = 5 // the quick tier uses the first five fault kinds
 
 func dataLines() string {
 	base := time.Date(2000, 1, 1, 0, 0, 0, 0, time.UTC).UnixNano()
@@ -59,24 +66,44 @@ func dataLines() string {
 	for i := 0; i < 7; i++ {
 		lines += fmt.Sprintf("cpu,host=h%d v=%d %d\n", i%3, i+1, base+int64(i)*int64(35*time.Minute))
 	}
+	for i := 0; i < 3; i++ {
+		lines += fmt.Sprintf("mem,host=h%d v=%d %d\n", i, 10*(i+1), base+int64(i)*int64(50*time.Minute))
+	}
 	return lines
 }
 
 var refMu sync.Mutex
 var reference = map[string]string{}
 
-func body(t *testing.T, maxNodes int) func(tp *explore.Tape) explore.Outcome {
+func body(t *testing.T, maxNodes int, thorough bool) func(tp *explore.Tape) explore.Outcome {
 	return func(tp *explore.Tape) (out explore.Outcome) {
 		n := 2 + tp.ChooseFree(maxNodes-1, "nodes-2")
 		rf := 1 + tp.ChooseFree(n, "rf-1")
-		offset := tp.ChooseFree(n, "index-offset")
-		coord := tp.ChooseFree(n, "coordinator")
-		fk := make([]int, n)
-		for i := 0; i < n; i++ {
+		offset := 0
+		if thorough {
+			offset = tp.ChooseFree(n, "index-offset")
+		}
+		layout := tp.ChooseFree(len(layouts), "layout")
+		if layout == 1 && n == 3 && !thorough {
+			layout = 0 // quick tier: the late joiner is explored on the two-node cluster only (executions of n=3 layout 0 are repeated instead)
+		}
+		total, coord := n, 0
+		if layout == 1 {
+			total = n + 1
+			coord = n // the late joiner coordinates
+		} else {
+			coord = tp.ChooseFree(n, "coordinator")
+		}
+		fk := make([]int, total)
+		for i := 0; i < total; i++ {
 			if i == coord {
 				continue
 			}
-			fk[i] = tp.ChooseFree(len(faults), fmt.Sprintf("fault[node%d]", i+1))
+			nf := len(faults)
+			if !thorough {
+				nf = quickFaults
+			}
+			fk[i] = tp.ChooseFree(nf, fmt.Sprintf("fault[node%d]", i+1))
 		}
 		si := tp.ChooseFree(len(statements), "statement")
 		stmt := statements[si]
@@ -96,10 +123,29 @@ func body(t *testing.T, maxNodes int) func(tp *explore.Tape) explore.Outcome {
 			if err := c.Write(0, dataLines()); err != nil {
 				panic("write: " + err.Error())
 			}
+			switch layout {
+			case 1:
+				if _, err := c.AddNode(); err != nil {
+					panic(err)
+				}
+			case 2:
+				rpi, _ := c.Data.RetentionPolicy(ck.DB, ck.RP)
+				k := 0
+				for _, g := range rpi.ShardGroups {
+					for _, s := range g.Shards {
+						k++
+						if k%2 == 0 && !s.OwnedBy(uint64(n)) && len(s.Owners) > 0 && c.Nodes[s.Owners[0].NodeID-1].Store.Shard(s.ID) != nil {
+							if err := c.CopyShard(s.ID, int(s.Owners[0].NodeID-1), n-1); err != nil {
+								panic("copy shard: " + err.Error())
+							}
+						}
+					}
+				}
+			}
 			// healthy owner for every shard?
 			shardsOK = true
 			rpi, _ := c.Data.RetentionPolicy(ck.DB, ck.RP)
-			var layout []string
+			var shardList []string
 			for _, g := range rpi.ShardGroups {
 				for _, s := range g.Shards {
 					ok := false
@@ -110,23 +156,33 @@ func body(t *testing.T, maxNodes int) func(tp *explore.Tape) explore.Outcome {
 							ok = true
 						}
 					}
-					layout = append(layout, fmt.Sprintf("%d{%s}", s.ID, strings.Join(owners, ",")))
+					shardList = append(shardList, fmt.Sprintf("%d{%s}", s.ID, strings.Join(owners, ",")))
 					if !ok {
 						shardsOK = false
 					}
 				}
 			}
 			var fs []string
-			for i := 0; i < n; i++ {
+			for i := 0; i < total; i++ {
 				if i != coord {
 					c.Nodes[i].SetFault(faults[fk[i]].f)
 					fs = append(fs, fmt.Sprintf("node%d=%s", i+1, faults[fk[i]].name))
 				}
 			}
-			desc = fmt.Sprintf("nodes=%d rf=%d coordinator=node%d faults=[%s] shards=%v statement=%q", n, rf, coord+1, strings.Join(fs, " "), layout, stmt)
+			desc = fmt.Sprintf("layout=%s nodes=%d rf=%d coordinator=node%d faults=[%s] shards=%v statement=%q", layouts[layout], n, rf, coord+1, strings.Join(fs, " "), shardList, stmt)
 			vrand.SetChooser(func(k int) int { return tp.ChooseFree(k, "owner-pick") })
+			vgroup.SetChooser(func(k int, caller string) int {
+				if !thorough && !strings.Contains(caller, "CreateIterator") {
+					return 0 // quick tier: only the order of the iterators handed to the merge is varied
+				}
+				if !thorough && k == 6 {
+					return 2 * tp.Choose(3, "first-to-arrive") // quick tier: which of three calls completes first
+				}
+				return tp.Choose(k, "arrival-order")
+			})
 			rows, qerr = c.Query(coord, stmt)
 			vrand.SetChooser(nil)
+			vgroup.SetChooser(nil)
 		})
 		refMu.Lock()
 		want, ok := reference[stmt]
@@ -215,17 +271,17 @@ func referenceRows(t *testing.T, stmt string) string {
 
 func TestCheck(t *testing.T) {
 	if explore.WorkerScenario() != "" {
-		explore.WorkerLoop(body(t, 3))
+		explore.WorkerLoop(body(t, 3, report.Tier() == "thorough"))
 		return
 	}
 	c := report.Begin("C05", "fault_enumeration")
 	c.Rule = "every (cluster size, replication factor, owner-assignment offset, coordinator, per-node fault, owner pick of the mapper, statement) tuple is one execution of real PointsWriter/ShardMapper/MetaExecutor/Service components over an in-memory transport in a synctest bubble; distinct = (error?, all shards have a healthy owner?) classes"
 	c.Assumptions = []string{
 		"meta client is a thin view over a real meta.Data; hinted handoff off (writes use consistency all before any fault is injected)",
-		"reply arrival order of concurrent remote iterators is left to the Go scheduler inside the bubble (not enumerated)",
+		"the order in which concurrent per-node calls of the shard mapper complete is an explorer choice (errgroup replaced by a sequential group; every order of up to 3 calls, rotations above); at most 1 (quick) / 2 (thorough) non-default orders per execution",
 		"statement kinds: raw and aggregate SELECTs; metadata lookups and storage reads are not enumerated yet",
 	}
-	b := body(t, c.Pick(3, 3))
+	b := body(t, 3, c.Thorough())
 	if *replayFile != "" {
 		rp, err := report.LoadReplay(*replayFile)
 		if err != nil {
@@ -238,8 +294,12 @@ func TestCheck(t *testing.T) {
 		}
 		return
 	}
+	bound, deadline := 1, 20*time.Minute
+	if c.Thorough() {
+		bound, deadline = 2, 100*time.Minute
+	}
 	// one process: the owner-pick chooser is process global, so executions are sequential within a worker
-	r := explore.ExploreProcs(explore.ProcConfig{Scenario: "cluster", Bound: -1, Procs: 16, Budget: 40, Env: []string{"GOMAXPROCS=2"}})
+	r := explore.ExploreProcs(explore.ProcConfig{Scenario: "cluster", Bound: bound, Procs: 16, Budget: 40, Deadline: deadline, Env: []string{"GOMAXPROCS=2"}})
 	c.AddExplore("cluster select with faults", r, map[string]any{"scenario": "cluster"})
 	report.ExitCode = c.Finish()
 }
